@@ -393,7 +393,8 @@ def main():
                 if len(cov) >= getattr(P, "NONTRIVIAL_MIN_TAGS", 2):
                     ntv.add("\n".join(c["lines"]))
                 if len(samples) < 3 and len(c["lines"]) > 1 and len(c["lines"]) < 40:
-                    samples.append({"ops": c["lines"][:12], "impl": il[:12]})
+                    cut = lambda l: l if len(l) <= 240 else l[:240] + "...<%d more>" % (len(l) - 240)
+                    samples.append({"ops": [cut(l) for l in c["lines"][:12]], "impl": [cut(l) for l in il[:12]]})
                 div_found += divs
             if len([d for d in div_found if d.kind in ("spec", "crash")]) > 20 or len(div_found) > 400:
                 break
